@@ -3,8 +3,8 @@
    the code before the fix commits recorded in known_findings.json. *)
 From Coq Require Import Lia.
 From RM Require Import C08.Model C08.Proofs C03.Model C03.Proofs C03.ArgModel C03.ArgProofs C03.Compose.
-From RM Require C11.Model C11.Proofs2 C11.Properties.
-From RM Require C05.Model C05.Proofs C05.Driver C05.Properties.
+From RM Require C11.Model C11.Proofs2 C11.Proofs5.
+From RM Require C05.Model C05.Proofs.
 Open Scope Z_scope.
 
 (* ---- LinuxProcLimits::from: no index panic for any stream contents *)
@@ -183,7 +183,8 @@ Theorem c03_process_total_partial :
      json_frame_offsets p (frame_of instr (fst m) o) <> Panic tag) /\
   (forall p name tag, blen name < 2 ^ 31 -> parse_x86_arg_list p name <> Panic tag).
 Proof.
-  split; [exact C05.Properties.c03_frame_bound|].
+  split; [intros p a os mem ma mm cw iv Ha Hm Hc r v Hr;
+          exact (C05.Proofs.frame_bound p a os mem ma mm cw iv C05.Model.current_code eq_refl Ha Hm Hc eq_refl r v Hr)|].
   destruct c03_no_panic_sites as [S1 [S2 [S3 [_ [S5 S6]]]]].
   split; [exact S1|]. split; [exact S2|]. split; [exact S6|]. split; [exact S3|]. split; [exact S5|].
   split.
